@@ -297,7 +297,8 @@ def run(F, R):
     inloop = {}
     for v in L:
         t = S.nodes[v].term
-        if t["k"] == "call" and (t.get("callee") or "").startswith("request_builder::RequestBuilder") and t.get("name") in transformers and S.nodes[v].ctx is hdr_ctx:
+        # any builder method other than the consuming build() is a transformer (also ones added later, e.g. a params setter)
+        if t["k"] == "call" and (t.get("callee") or "").startswith("request_builder::RequestBuilder") and t.get("name") not in ("build", "build_intermediate", "new") and S.nodes[v].ctx is hdr_ctx:
             inloop.setdefault(t["name"], []).append(v)
     R.check("C06-R4", "only-request-id", set(inloop) == {"request_id"}, "transformers in loop: %s" % sorted(inloop),
             "RequestBuilder transformers applied inside the attempt loop: %s (payload/session must not change between attempts; request id must)" % sorted(inloop))
@@ -328,6 +329,23 @@ def run(F, R):
                 pre.setdefault(nm, [])
     R.check("C06-R4", "session-before-loop", "session_id" in pre and "add_update_check" in pre, "session_id/add_update_check/add_ping applied before the loop: %s" % sorted(pre),
             "session id or update-check payload is not set before the attempt loop: %s" % sorted(pre))
+    # the setter really replaces the id (a setter that keeps the first id makes every retry reuse it)
+    for setter, fld in (("request_id", "request_id"), ("session_id", "session_id")):
+        sb_ = [b for b in lib.bodies(c, item=setter, impl_self="request_builder::RequestBuilder")]
+        if not R.floor("C06-R4", "RequestBuilder::%s" % setter, len(sb_), 1):
+            continue
+        sv_ = BV.of(sb_[0])
+        from .. import terms as _terms
+        ret_ = strip(sv_.trace_local(0))
+        got_ = None
+        if ret_[0] == "agg" and len(ret_) > 4 and fld in ret_[4]:
+            got_ = _terms.render(sv_, ret_[3][ret_[4].index(fld)], sm.w, {})
+        else:
+            ws_ = [(bi_, r_) for (bi_, si_, p_, r_) in sv_.field_writes if bi_ in sv_.reach0 and smod._chain(p_)[-1:] == [fld]]
+            if len(ws_) == 1 and ws_[0][1]["k"] != "callret" and not [b_ for b_ in sv_.exits() if b_ in sv_.reach_from([0], avoid=[ws_[0][0]])]:
+                got_ = _terms.render(sv_, sv_._trace_rv(ws_[0][1], None, 0), sm.w, {})
+        R.check("C06-R4", "setter-replaces:" + setter, got_ == "Some{param2}", "%s(x) stores Some(x) unconditionally" % setter,
+                "RequestBuilder::%s does not unconditionally store its argument (%s): a later call may keep an earlier id" % (setter, got_))
     # ---------------------------------------------------------------- R6 one send per built request outside the loop
     R.rule("C06-R6", "outside the attempt loop every request value is handed to the sending function by one call site only (event reports and pings are sent once): within one function invocation no two send call sites receive the same RequestBuilder value")
     sends = [n for n in S.nodes if n.idx in S.live and n.term["k"] == "call" and (n.term.get("name") == "do_omaha_request_and_update_context") and not smod.is_logging_span(n.term["sp"])]
